@@ -45,7 +45,11 @@ def generate(rng, tier):
     for _ in range(400 if tier == 'thorough' else 40):
         pool = [b'u@a.example', b'v@a.example', b'u@b.example', b'nobody', b'u@A.EXAMPLE', b'x@sub.a.example', b'u@a.examplex', b'u@;bad', b'w@c.test', b'u@xa.example']
         seq = [rng.choice(pool) for _ in range(rng.randrange(2, 7))]
-        ops.append('op dynrealm %s %s' % (hx(b'srv:_radsec._tcp'), ' '.join(hx(x) for x in seq)))
+        if rng.random() < 0.4:
+            # servers of the sub-realms end; later names with several '@' or unsafe text before the last '@' re-create them
+            k = rng.randrange(1, len(seq))
+            seq = seq[:k] + [b'expire'] + seq[k:] + [rng.choice([b'x@`id`;$(reboot)@a.example', b'u@;bad@a.example', b'p@q@b.example', b'u@a.example'])]
+        ops.append('op dynrealm %s %s' % (hx(b'srv:_radsec._tcp'), ' '.join('expire' if x == b'expire' else hx(x) for x in seq)))
     cases = [(cid, ['cfg nopipe'] + l) for cid, l in batch(ops, 'realm', 10)]
     # routing through the pipeline: ordered realm lists
     def mod(rng, cfg):
